@@ -192,9 +192,9 @@ Qed.
 
 (* ---- the bound is needed ------------------------------------------------------------ *)
 Definition tight_params : params := mk_params 10 5 12.
-Definition tight_bucket : list mblk := [mk_mblk (mk_blk 1 0 [7]) None].
+Definition tight_bucket : list mblk := [mk_mblk (mk_blk 1 0 [7] 1) None].
 Definition tight_schedule : list label :=
-  [Upload (mk_blk 2 0 [7]); Mark 1; Tick 5; Sync 0; Tick 5; Sync 0; Tick 3; Clean 1].
+  [Upload (mk_blk 2 0 [7] 1); Mark 1; Tick 5; Sync 0; Tick 5; Sync 0; Tick 3; Clean 1].
 
 Lemma tight_refuted :
   exists st, run tight_params [7] (init tight_params tight_bucket 1) tight_schedule = Some st
@@ -212,3 +212,80 @@ Proof. unfold good_params. vm_compute. intuition congruence. Qed.
 Ltac Zify.zify_post_hook ::= Z.to_euclidean_division_equations.
 Lemma compactor_view_bound d : 0 <= d -> 0 <= compactor_ignore_delay d <= d.
 Proof. intros H. unfold compactor_ignore_delay, compact_ignore_delay_expr. lia. Qed.
+
+(* ---- the real compactor's operation logs ---------------------------------------------- *)
+
+Lemma ids_mark_block t i b : ids (mark_block t i b) = ids b.
+Proof.
+  unfold ids, mark_block. rewrite map_map. apply map_ext. intros y. destruct (bid (blk_of y) =? i); reflexivity.
+Qed.
+
+(* a log accepted by the guards keeps "every source is in an unmarked block" *)
+Lemma apply_op_keeps u b o b' : NoDup (ids b) -> U_cov u b -> apply_op b o = Some b' ->
+  NoDup (ids b') /\ U_cov u b'.
+Proof.
+  intros Hn Hc H. destruct o as [nb|i|i]; simpl in H.
+  - destruct (mem (bid nb) (ids b)) eqn:E; [discriminate|]. inversion H; subst. apply mem_false in E. split.
+    + simpl. constructor; auto.
+    + intros s Hs. destruct (Hc s Hs) as (x & Hx & R). exists x. split; [now right|exact R].
+  - destruct (find_m b i) as [x0|] eqn:F; [|discriminate].
+    destruct (unmarked x0 && replaced b x0) eqn:E; [|discriminate]. inversion H; subst; clear H.
+    apply andb_true_iff in E. destruct E as [_ Hrep]. destruct (find_m_spec _ _ _ F) as [Hx0 Hid0]. subst i.
+    split; [now rewrite ids_mark_block|].
+    intros s Hs. destruct (Hc s Hs) as (x & Hx & Hm & Hsx). unfold mark_block.
+    set (f := fun y : mblk => if bid (blk_of y) =? bid (blk_of x0) then mk_mblk (blk_of y) (Some 0) else y).
+    destruct (bid (blk_of x) =? bid (blk_of x0)) eqn:E.
+    + apply Z.eqb_eq in E. assert (x = x0) by (eapply NoDup_id_eq; eauto). subst x.
+      unfold replaced in Hrep. rewrite forallb_forall in Hrep. specialize (Hrep s Hsx).
+      apply existsb_exists in Hrep. destruct Hrep as (y & Hy & Hyc).
+      apply andb_true_iff in Hyc. destruct Hyc as [Hyc Hys]. apply andb_true_iff in Hyc. destruct Hyc as [Hyu Hyne].
+      exists (f y). split; [now apply in_map|]. unfold f. apply negb_true_iff in Hyne. rewrite Hyne.
+      split; [unfold unmarked in Hyu; destruct (mark y); [discriminate|reflexivity] | now apply mem_In].
+    + exists (f x). split; [now apply in_map|]. unfold f. rewrite E. auto.
+  - destruct (find_m b i) as [x0|] eqn:F; [|discriminate].
+    destruct (unmarked x0) eqn:E; [discriminate|]. inversion H; subst; clear H.
+    destruct (find_m_spec _ _ _ F) as [Hx0 Hid0]. split.
+    + unfold ids. now apply (NoDup_map_filter (fun z => bid (blk_of z))).
+    + intros s Hs. destruct (Hc s Hs) as (x & Hx & Hm & Hsx). exists x. repeat split; auto.
+      apply filter_In. split; auto. apply negb_true_iff, Z.eqb_neq. intros Eq.
+      assert (x = x0) by (eapply NoDup_id_eq; eauto; congruence). subst x.
+      unfold unmarked in E. rewrite Hm in E. discriminate.
+Qed.
+
+Lemma apply_log_keeps u ops : forall b b', NoDup (ids b) -> U_cov u b -> apply_log b ops = Some b' ->
+  NoDup (ids b') /\ U_cov u b'.
+Proof.
+  induction ops as [|o r IH]; intros b b' Hn Hc H; simpl in H.
+  - inversion H; subst. auto.
+  - destruct (apply_op b o) as [b1|] eqn:E; [|discriminate].
+    destruct (apply_op_keeps u b o b1 Hn Hc E) as [Hn1 Hc1]. eapply IH; eauto.
+Qed.
+
+(* the rewrite of a single block followed by the code's garbage collection: the
+   second mark is rejected by the guard, and afterwards no unmarked block holds source 7 *)
+Definition rw_bucket : list mblk := [mk_mblk (mk_blk 1 0 [7] 1) None].
+Definition rw_ops : list lop := [OUpload (mk_blk 2 0 [7] 1); OMark 1; OMark 2].
+
+Lemma rewrite_gc_rejected :
+  apply_log rw_bucket rw_ops = None /\ first_rejected rw_bucket rw_ops 0 = Some 2%nat
+  /\ covers [7] rw_bucket = true /\ covers [7] (apply_log_raw rw_bucket rw_ops) = false.
+Proof. vm_compute. repeat split; reflexivity. Qed.
+
+(* at the level of the protocol: with the code's garbage-collection rule as a step,
+   good delays do not save the data *)
+Definition gc_params : params := mk_params 10 5 20.
+Definition gc_schedule : list clabel :=
+  [L (Upload (mk_blk 2 0 [7] 1)); L (Mark 1); GC 2; L (Tick 5); L (Sync 0); L (Tick 5); L (Sync 0); L (Tick 5); L (Sync 0)].
+
+Lemma code_gc_refuted :
+  exists st, run_code gc_params [7] (init gc_params rw_bucket 1) gc_schedule = Some st
+    /\ all_served [7] st = false
+    /\ ignoreDelay gc_params + syncLag gc_params <= deleteDelay gc_params
+    /\ covers [7] rw_bucket = true /\ NoDup (ids rw_bucket).
+Proof.
+  eexists. split; [vm_compute; reflexivity|]. split; [vm_compute; reflexivity|].
+  split; [vm_compute; congruence|]. split; [vm_compute; reflexivity|]. repeat constructor. simpl. tauto.
+Qed.
+
+Lemma compactor_order_facts : compactor_order_ok = true.
+Proof. vm_compute. reflexivity. Qed.
